@@ -1,6 +1,7 @@
 package vuego
 
 import (
+	"fmt"
 	"strings"
 
 	"golang.org/x/net/html"
@@ -23,10 +24,21 @@ func (v *Vue) evalConditionExpr(ctx VueContext, expr string) (bool, error) {
 	expr = helpers.NormalizeComparisonOperators(expr)
 
 	// Try to evaluate as expr expression first (supports ==, !=, &&, ||, !, <, >, <=, >=, and function calls)
-	result, err := v.exprEval.Eval(expr, ctx.stack.EnvMap())
+	result, err := v.exprEval.Eval(expr, v.exprEnv(ctx))
 	if err == nil {
 		// Successfully evaluated with expr - convert to boolean
 		return helpers.IsTruthy(result), nil
+	}
+
+	// A call of a template function that fails (unknown function, wrong
+	// arguments, error returned) is an error of the template, as it is in
+	// {{ }}, not a false condition.
+	if helpers.IsFunctionCall(expr) {
+		name := strings.TrimSpace(expr[:strings.Index(expr, "(")])
+		if _, registered := v.funcMap[name]; !registered {
+			return false, fmt.Errorf("in expression '%s': function '%s' not found", expr, name)
+		}
+		return false, fmt.Errorf("in expression '%s': %w", expr, err)
 	}
 
 	// If expr evaluation failed and expression starts with !, handle nil negation manually.
@@ -35,7 +47,7 @@ func (v *Vue) evalConditionExpr(ctx VueContext, expr string) (bool, error) {
 	if strings.HasPrefix(expr, "!") {
 		innerExpr := strings.TrimSpace(expr[1:])
 		// Try to evaluate inner expression (may return nil)
-		innerResult, innerErr := v.exprEval.Eval(innerExpr, ctx.stack.EnvMap())
+		innerResult, innerErr := v.exprEval.Eval(innerExpr, v.exprEnv(ctx))
 		if innerErr == nil {
 			// Successfully evaluated - convert nil to bool and negate
 			return !helpers.IsTruthy(innerResult), nil
